@@ -379,3 +379,84 @@ M("C05", "client-one-block-frame-ends-loop", "c2.py", _CLIENT,
 M("C05", "client-one-block-frame-not-yielded", "c2.py", _CLIENT,
   _CLIENT.replace("            yield EncryptedPacket(ciphertext, signature)\n",
                   "            if size - 16 > 16:\n                yield EncryptedPacket(ciphertext, signature)\n"), "C05.R7")
+
+# ================================================================================================ R6: guard moved into a decorator
+_ENC_DEF = "def encrypt_data(data: bytes, aes_key: bytes, iv: bytes) -> bytes:\n"
+_DEC_DEF = "def decrypt_data(data: bytes, aes_key: bytes, iv: bytes) -> bytes:\n"
+_ENC_BARE = "    cipher = AES.new(aes_key, AES.MODE_CBC, iv=iv)\n    return cipher.encrypt(pad(data))\n"
+_DEC_BARE = "    cipher = AES.new(aes_key, AES.MODE_CBC, iv=iv)\n    return cipher.decrypt(data)\n"
+_FUNCTOOLS = ("c2.py", "import hashlib\n", "import functools\nimport hashlib\n")
+_DECO = (
+    "def _needs_key(func):\n"
+    "    @functools.wraps(func)\n"
+    "    def checked(data, aes_key, iv):\n"
+    "        if {test}:\n"
+    "            raise {exc}(\"Cannot use AES without AES key\")\n"
+    "        return func({args})\n\n"
+    "    return checked\n\n\n"
+)
+
+
+def _deco_edits(test="aes_key is None", exc="ValueError", args="data, aes_key, iv", on_decrypt=True, deco=None):
+    d = deco if deco is not None else _DECO.format(test=test, exc=exc, args=args)
+    return [_FUNCTOOLS,
+            ("c2.py", _ENC_DEF, d + "@_needs_key\n" + _ENC_DEF),
+            ("c2.py", _DEC_DEF, ("@_needs_key\n" if on_decrypt else "") + _DEC_DEF),
+            ("c2.py", _ENC, _ENC_BARE), ("c2.py", _DEC, _DEC_BARE)]
+
+
+T("C05", "twin-key-guard-plain-decorator", "c2.py", _ENC, _ENC_BARE, edits=_deco_edits())
+T("C05", "twin-key-guard-decorator-keywords-inverted", "c2.py", _ENC, _ENC_BARE, edits=_deco_edits(deco=(
+    "def _needs_key(func):\n"
+    "    def checked(data, aes_key, iv):\n"
+    "        if aes_key is not None:\n"
+    "            return func(data=data, iv=iv, aes_key=aes_key)\n"
+    "        raise ValueError(\"Cannot use AES without AES key\")\n\n"
+    "    return functools.update_wrapper(checked, func)\n\n\n")))
+# a wrapper that cannot see the key (star arguments) is not understood: undecided, never an alarm ... but it does not guard either;
+# here the body keeps its guard, so the obligation is discharged in the body
+T("C05", "twin-logging-decorator-body-keeps-guard", "c2.py", _ENC_DEF,
+  "def _traced(func):\n    @functools.wraps(func)\n    def inner(*args, **kwargs):\n        logger.debug(\"%s\", func.__name__)\n"
+  "        return func(*args, **kwargs)\n\n    return inner\n\n\n@_traced\n" + _ENC_DEF,
+  edits=[_FUNCTOOLS, ("c2.py", _ENC_DEF,
+         "def _traced(func):\n    @functools.wraps(func)\n    def inner(*args, **kwargs):\n        logger.debug(\"%s\", func.__name__)\n"
+         "        return func(*args, **kwargs)\n\n    return inner\n\n\n@_traced\n" + _ENC_DEF)])
+M("C05", "key-guard-decorator-tests-iv", "c2.py", _ENC, _ENC_BARE, "C05.R6", edits=_deco_edits(test="iv is None"))
+M("C05", "key-guard-decorator-keyerror", "c2.py", _ENC, _ENC_BARE, "C05.R6", edits=_deco_edits(exc="KeyError"))
+M("C05", "key-guard-decorator-swaps-key-and-iv", "c2.py", _ENC, _ENC_BARE, "C05.R6", edits=_deco_edits(args="data, iv, aes_key"))
+M("C05", "key-guard-decorator-not-on-decrypt", "c2.py", _ENC, _ENC_BARE, "C05.R6", edits=_deco_edits(on_decrypt=False))
+
+# ================================================================================================ R10: one CBC chain per message
+_CHUNKED = (
+    "    if aes_key is None:\n        raise ValueError(\"Cannot decrypt without AES key\")\n"
+    "{before}    plain = b\"\"\n    pos = 0\n    while pos < len(data):\n{inside}"
+    "        plain += cipher.decrypt(data[pos : pos + 32768])\n        pos += 32768\n    return plain\n"
+)
+_NEW = "cipher = AES.new(aes_key, AES.MODE_CBC, iv=iv)\n"
+T("C05", "twin-decrypt-chunked-one-cipher", "c2.py", _DEC, _CHUNKED.format(before="    " + _NEW, inside=""))
+M("C05", "decrypt-chunked-cipher-per-chunk", "c2.py", _DEC, _CHUNKED.format(before="", inside="        " + _NEW), "C05.R10")
+_ENC_JOIN = (
+    "    if aes_key is None:\n        raise ValueError(\"Cannot encrypt without AES key\")\n"
+    "    padded = pad(data)\n{before}"
+    "    return b\"\".join({ciph}.encrypt(padded[i : i + 4096]) for i in range(0, len(padded), 4096))\n"
+)
+T("C05", "twin-encrypt-chunked-one-cipher", "c2.py", _ENC, _ENC_JOIN.format(before="    " + _NEW, ciph="cipher"))
+M("C05", "encrypt-chunked-cipher-per-chunk", "c2.py", _ENC,
+  _ENC_JOIN.format(before="", ciph="AES.new(aes_key, AES.MODE_CBC, iv=iv)"), "C05.R10")
+M("C05", "encrypt-blockwise-fresh-cipher", "c2.py", _ENC,
+  "    if aes_key is None:\n        raise ValueError(\"Cannot encrypt without AES key\")\n"
+  "    out = bytearray()\n    padded = pad(data)\n    for block in (padded[i : i + 16] for i in range(0, len(padded), 16)):\n"
+  "        out += AES.new(aes_key, AES.MODE_CBC, iv=iv).encrypt(block)\n    return bytes(out)\n", "C05.R10")
+M("C05", "key-guard-dropped-behind-logging-decorator", "c2.py", _ENC, _ENC_BARE, "C05.R6",
+  edits=[_FUNCTOOLS, ("c2.py", _ENC_DEF,
+         "def _traced(func):\n    @functools.wraps(func)\n    def inner(*args, **kwargs):\n        logger.debug(\"%s\", func.__name__)\n"
+         "        return func(*args, **kwargs)\n\n    return inner\n\n\n@_traced\n" + _ENC_DEF), ("c2.py", _ENC, _ENC_BARE)])
+# hand-made chaining (a fresh cipher per piece whose IV is the last ciphertext block of the previous piece) is a correct single
+# chain: not understood by R6 / R10 -> undecided, never an alarm; with the constant IV per piece it is the seeded defect
+_HANDMADE = (
+    "    if aes_key is None:\n        raise ValueError(\"Cannot decrypt without AES key\")\n"
+    "    plain = bytearray()\n    chain = iv\n    for pos in range(0, len(data), 32768):\n        piece = data[pos : pos + 32768]\n"
+    "        plain += AES.new(aes_key, AES.MODE_CBC, iv={ivarg}).decrypt(piece)\n        chain = piece[-16:]\n    return bytes(plain)\n"
+)
+T("C05", "twin-decrypt-handmade-chaining", "c2.py", _DEC, _HANDMADE.format(ivarg="chain"))
+M("C05", "decrypt-handmade-chaining-not-used", "c2.py", _DEC, _HANDMADE.format(ivarg="iv"), "C05.R10")
